@@ -62,7 +62,7 @@ C.unit('C20', '_util:_auto_select_init#body')
 def sdp_tol(a):
   if a.tol is not None:
     return a.tol
-  return TH.vmax(TH.absT(a.w.term)) * z3.ToReal(a.w.dim(0)) * TH.EPS
+  return TH.vmax(TH.absT(a.w.term)) * z3.ToReal(a.w.dim(0)) * TH.eps_of(a.w.term)      # documented default: machine epsilon of w's OWN precision
 
 
 register(Contract(
@@ -96,9 +96,21 @@ register(Contract(
     raises={'ValueError': OnlyIf(lambda a: z3.Or(z3.Not(TH.allclose(a.metric.term, TH.tr(a.metric.term))), z3.BoolVal(a.tol is not None) if a.tol is None else a.tol < 0)),
             'NonPSDError': May(), 'LinAlgError': May()},
     returns=mat_result(lambda a: [a.metric.dim(0), a.metric.dim(1)], lambda a: TH.cfm(a.metric.term)),
+    events={'tolerance-forwarded-to-every-sign-test': lambda a, ev, r: _tol_forwarded(a, ev)},
     modifies=set(), prop=['C03', 'C17', 'C20']))
 C.unit('C20', '_util:components_from_metric')
 C.unit('C03', '_util:components_from_metric')
+
+
+def _tol_forwarded(a, ev):
+  cs = [e for e in ev if e[0] == 'call' and e[1] == '_util:_check_sdp_from_eigen']
+  # (no call at all: the Cholesky branch, which itself rejects anything that is not positive definite)
+  raw = a.raw('tol')
+  ok = True
+  for c in cs:
+    t = c[2]['tol']
+    ok &= (isinstance(t, VNone) and isinstance(raw, VNone)) or (isinstance(t, VReal) and isinstance(raw, VReal) and t.t.eq(raw.t))
+  return z3.BoolVal(bool(ok))
 
 
 # ------------------------------------------------------------------------------------- _pseudo_inverse_from_eig
